@@ -258,6 +258,10 @@ def extension (p : Path) : Option Str :=
 def join (p : Path) (n : Str) : Path := if p.isEmpty then n else p ++ '/' :: n
 /-- `Option::and_then` -/
 def and_then (o : Option α) (f : α → Option β) : Option β := o.bind f
+/-- `Option::is_some_and` -/
+def is_some_and (o : Option α) (p : α → Bool) : Bool := match o with | some v => p v | none => false
+/-- `Path::starts_with` on path TEXTS without trailing separators: component-wise — `a/bc` does not start with `a/b` -/
+def path_starts_with (p q : Path) : Bool := p == q || (q ++ ['/']).isPrefixOf p || q.isEmpty
 
 /-- `to_string()` of a text, or of an error (the message is not modelled) -/
 class ToStringRs (γ : Type) where
